@@ -3,8 +3,7 @@ C02 — Every reported span is a valid line range of the stored listing (partial
 
 Proved here, for the model of /repo as it is now:
  * the spans scheduled by hints (`get_program`): valid line ranges of the stored source for EVERY
-   text without the separators 0x1c–0x1f (`C02_hint_spans`); that hypothesis is needed
-   (`C02_hint_spans_needs_noFS`, finding F07d);
+   text (`C02_hint_spans`, no hypothesis);
  * the span of the `ast_construction:*` error label is (1, number of lines);
  * `get_bindings`: start / end are the line numbers of the first / last captured `POS` (or of the
    paired `POS`), so a binding is a valid range iff those captured lines are ordered and in range.
@@ -44,18 +43,13 @@ theorem C02_hint_spans_centrifugated (src c : Str) (p : Program)
     cases h
     exact collectHints_spans c a d hcol
 
-/-- **C02 (hint spans), full.** For EVERY text without the separators 0x1c–0x1f (`noFS`): whenever
-`get_program` returns, every span it schedules is a valid line range of the stored source —
-`1 ≤ start ≤ end ≤ number of lines of the stored source`. (The stored source has exactly as many
-lines as the text the hints were numbered on: `remove_hints` swallows no line break and strips no
-end line; no hypothesis on emptiness is needed.) -/
-theorem C02_hint_spans (src : Str) (p : Program) (hfs : noFS src = true) (h : getProgram src = .ok p) :
+/-- **C02 (hint spans), full.** For EVERY text: whenever `get_program` returns, every span it
+schedules is a valid line range of the stored source — `1 ≤ start ≤ end ≤ number of lines of the
+stored source`. (The stored source has exactly as many lines as the text the hints were numbered
+on: `remove_hints` swallows no line break and strips no end line; no hypothesis on emptiness nor on
+the characters of the text is needed since 80f9da8.) -/
+theorem C02_hint_spans (src : Str) (p : Program) (h : getProgram src = .ok p) :
     ∀ e ∈ p.addition.entries ++ p.deletion.entries, ValidSpan p.source e.2.1 e.2.2 := by
-  have hfs' : ∀ x ∈ src, fsFree x := by
-    intro x hx
-    have := List.all_eq_true.mp hfs x hx
-    simp only [Bool.not_eq_true', Bool.and_eq_false_iff, decide_eq_false_iff_not] at this
-    simp only [fsFree]; omega
   cases hc : centrifugate (prepare src) with
   | error e => unfold getProgram getProgramFrom at h; simp [hc] at h
   | ok c =>
@@ -69,31 +63,15 @@ theorem C02_hint_spans (src : Str) (p : Program) (hfs : noFS src = true) (h : ge
     intro e he
     have := hspans e he
     simp only [ValidSpan] at this ⊢
-    rw [hps, lineCount_stored src c hfs' hc]
+    rw [hps, lineCount_stored _ c hc]
     exact this
 
-/-- The same sentence without the `noFS` hypothesis … -/
-def C02_hint_spans_any_character : Prop :=
-  ∀ (src : Str) (p : Program), getProgram src = .ok p → p.source ≠ [] →
-    ∀ e ∈ p.addition.entries ++ p.deletion.entries, ValidSpan p.source e.2.1 e.2.2
-
-def fsLine : Str := "\x1c # paroxython: foo\nx = 1 # paroxython: bar".toList
-
-/-- … is false (on the model and, checked by `./check C02`, on the implementation): a first line
-made of the separator 0x1c and a hint comment is not a hint alone on its line for the regex engine
-(`\s` does not match 0x1c) but is blank for `str.strip()` once the comment is removed; `bar` is
-scheduled on line 2 of a one-line stored listing. -/
-theorem C02_hint_spans_needs_noFS : ¬ C02_hint_spans_any_character := by
-  intro h
-  have hp : getProgram fsLine =
-      .ok ⟨"x = 1".toList, [("foo".toList, [(1, 1)]), ("bar".toList, [(2, 2)])], []⟩ := by rfl
-  have := h fsLine _ hp (by decide) ("bar".toList, 2, 2) (by decide)
-  revert this
-  simp only [ValidSpan]
-  decide
+/-- The input of the repaired finding F07d (a separator 0x1c in front of a hint comment on the first
+line): the line is now a hint alone on its line, `bar` is scheduled on the single stored line. -/
+example : getProgram "\x1c # paroxython: foo\nx = 1 # paroxython: bar".toList =
+    .ok ⟨"x = 1".toList, [("bar".toList, [(1, 1)]), ("foo".toList, [(1, 1)])], []⟩ := by rfl
 
 /-- Non-vacuity of `C02_hint_spans`, on the inputs of the repaired findings 7, 7b and 7c. -/
-example : noFS "# paroxython: foo\n\nx = 1".toList = true := by decide
 example : getProgram "# paroxython: foo\n\nx = 1".toList =
     .ok ⟨"x = 1".toList, [("foo".toList, [(1, 1)])], []⟩ := by rfl
 example : getProgram "x = 1\n\n# paroxython: foo".toList =
